@@ -124,6 +124,9 @@ def _toy_shard(arg):
                         elif got is not exp:
                             if in_sub:
                                 st.violation("C02/verify/soundness", {"curve": ck, "Q": Q, "c": c, "r": r, "s": s}, got, exp)
+                            elif (len(allpts) + 1) % 2:
+                                # odd group order: no 2-torsion point exists, the arithmetic is exact for every point
+                                st.violation("C02/verify/soundness-off-subgroup-key", {"curve": ck, "Q": Q, "c": c, "r": r, "s": s}, got, exp)
                             else:
                                 # SEC 1 4.1.4 presumes a valid public key (n*Q = O).  A key outside <G> on an even-order
                                 # curve can drive the sum onto the 2-torsion point (x, 0), which btclib's in-band infinity
